@@ -427,6 +427,11 @@ pub fn run_main(a: RunArgs) -> i32 {
         }
     }
 
+    if samples.is_empty() {
+        inconclusive.push("no sample case recorded by the monitor".into());
+        samples.push(json!({"note": "no sample recorded"}));
+    }
+
     // ---- known findings
     let known = load_known();
     let mut new_viols: Vec<(String, Value)> = Vec::new();
